@@ -42,9 +42,13 @@ def main():
     C.coq_prepare()
     ok, out, failing, dt = C.coq_make(["all"], timeout=3000)
     if not ok:
-        print(out[-5000:])
-        print("setup: coq build failed at", failing)
-        return 1
+        # every check builds (and reports on) the targets of its own property; a file that does not compile
+        # here makes exactly the checks that depend on it fail, not the set-up
+        print(out[-3000:])
+        print("setup: some Coq files did not build (first failure at %s); the checks depending on them will report it" % failing)
     rc = selftest()
-    print("setup ok (coq build %.0fs)" % dt)
+    b, err = C.build_emulator()
+    if b is None:
+        print("setup: emulator build failed:", err[-2000:])
+    print("setup done (coq build %.0fs)" % dt)
     return rc
